@@ -1,5 +1,5 @@
 SPECIFICATION Spec
-CONSTANTS Kinds = {"plain", "mixed", "enc"}
+CONSTANTS Kinds = {"plain", "mixed", "enc", "root"}
           MixedServerSet = {"none", "rel", "relslash", "relroot", "abs", "absvar", "two", "psfirst", "pslast", "relpfx", "abspfx"}
           MixedCoreServers = {"none", "rel", "relslash", "relroot", "abs", "absvar", "two", "psfirst", "pslast", "relpfx", "abspfx"}
           MixedMethKeys = {"G", "P", "GP"}
